@@ -458,7 +458,11 @@ class MultiSetCooccurrenceVectorizer(BaseCooccurrenceVectorizer):
             coo_sizes = (self.coo_initial_bytes // 20) // np.sum(average_window)
             self._coo_sizes = np.array(coo_sizes * average_window, dtype=np.int64)
 
-        self._coo_sizes = np.divmod(self._coo_sizes, self.n_threads)[0]
+        # coo_append can only grow a buffer once ind >= 0.95 * size, which is never
+        # reached before the buffer is full when size < 20
+        self._coo_sizes = np.maximum(
+            np.divmod(self._coo_sizes, self.n_threads)[0], 32
+        )
 
     def _em_cooccurrence_iteration(self, token_sequences, cooccurrence_matrix):
         # call the numba function to return the new matrix.data
